@@ -9,6 +9,16 @@ in which the most recent stroke along a unit edge wins.  `cfs t sd r c` says tha
 Everything is for every table shape, every history and — via `Inv` — every starting file whose
 stored layers are well formed (`SidecarOK`).
 
+Editing histories.  `Border.Step` is one API call out of `set_cell_border`, `Table.write`, `merge_cells` (any
+rectangle) and `add_row(n)` / `add_column(n)` without a start index; `Doc.run` runs a history on a table of an
+open document (as repaired: `write` keeps the border object of the cell it replaces, `merge_cells` and appended
+rows / columns drop the `extract_strokes` cache entry so that the borders are extracted again onto the cells as
+they are); `Doc.view` is `Cell.border.<side>`, `Doc.savedView` what a reopened copy reports; `histSpec` is the
+specification: the table shape after the history and the edge map of the accepted strokes.  Not covered (no
+step for them): rows / columns inserted before the end, deleted rows / columns, `write` onto a placeholder of
+a merged rectangle, `merge_cells` over an existing merged rectangle (the model's `mergeKind` is the merge map
+only for rectangles that do not overlap earlier ones).
+
 Styles.  `Style.key` is the de-duplication key of `update_cell_styles` (repaired),
 `Style.dedup` the grouping it produces, `Style.fromStorage` the flags of a style that was read.
 
@@ -20,6 +30,7 @@ protobuf `float` fields (`f32`) and Python float arithmetic (`f64`); `quantize n
 float attributes as a `float` field holds them (`= s` when they are binary32 values).
 -/
 import NumbersModel.Lemmas.Border
+import NumbersModel.Lemmas.BorderEdits
 import NumbersModel.Lemmas.Style
 import NumbersModel.Lemmas.StyleStoreRW
 namespace NumbersModel.Props.C15
@@ -99,6 +110,122 @@ theorem shared_edge_both_sides (t : Table) (st : St) (hinv : Inv t st) (r c r' c
 theorem api_total_in_range (t : Table) (st : St) (ops : List Op)
     (h : ∀ op ∈ ops, op.row < t.nrows ∧ op.col < t.ncols) :
     apiStrokes t st ops = .ok (applyOps t st ops) := apiStrokes_ok t ops h st
+
+/-! ### histories that interleave strokes with writes, merges and appended rows / columns -/
+
+/-- what is expected of a slot after an editing history on a new document: the most recent accepted stroke
+    along its unit edge (whenever it was drawn — before or after the cell was written to, merged around or
+    appended), if the cell of the final table shows that side. -/
+def specEdits (t : Table) (steps : List Step) (r c : Nat) (sd : Side) : Option Nat :=
+  if cfs (histSpec t (fun _ => none) steps).1 sd r c then (histSpec t (fun _ => none) steps).2 (edgeOf sd r c) else none
+
+/-- **open document = last writer wins, through edits**: new document (any order counter), any table shape,
+    any history of strokes, writes, merges and appended rows / columns that does not raise. -/
+theorem open_view_lww_edits (t : Table) (m : Nat) (steps : List Step) (d : Doc)
+    (hrun : (Doc.init t m).run steps = .ok d) (r c : Nat) (sd : Side) :
+    d.view r c sd = specEdits t steps r c sd := by
+  obtain ⟨hinv, ht⟩ := docInv_run steps _ d _ (docInv_init t m) hrun
+  rw [view_of_docInv d _ hinv, ht]
+  rfl
+
+/-- **saved file = last writer wins, through edits**. -/
+theorem saved_view_lww_edits (t : Table) (m : Nat) (steps : List Step) (d : Doc)
+    (hrun : (Doc.init t m).run steps = .ok d) (r c : Nat) (sd : Side) :
+    d.savedView r c sd = specEdits t steps r c sd := by
+  obtain ⟨hinv, ht⟩ := docInv_run steps _ d _ (docInv_init t m) hrun
+  rw [savedView_of_docInv d _ hinv, ht]
+  rfl
+
+/-- the same from any state that satisfies the stroke-history invariant (e.g. a loaded file) whose layers
+    have the edge map `em`: the final table shape and edge map are those of the specification. -/
+theorem open_view_lww_edits_from (t : Table) (st : St) (hinv : Inv t st) (em : EdgeMap) (hem : Tops st.sc em)
+    (steps : List Step) (d : Doc) (hrun : (Doc.mk t st false).run steps = .ok d) (r c : Nat) (sd : Side) :
+    d.view r c sd =
+      if cfs (histSpec t em steps).1 sd r c then (histSpec t em steps).2 (edgeOf sd r c) else none := by
+  obtain ⟨h, ht⟩ := docInv_run steps _ d _ (docInv_of_inv t st hinv em hem) hrun
+  rw [view_of_docInv d _ h, ht]
+
+/-- **the file agrees with the open document, through edits**: from any state satisfying the invariant (new
+    document, loaded file, after any strokes), after any editing history, every cell side of the open
+    document shows what a reopened copy of the saved file shows. -/
+theorem open_eq_saved_edits (t : Table) (st : St) (hinv : Inv t st) (steps : List Step) (d : Doc)
+    (hrun : (Doc.mk t st false).run steps = .ok d) (r c : Nat) (sd : Side) :
+    d.view r c sd = d.savedView r c sd := by
+  obtain ⟨em, hem⟩ := exists_tops st.sc hinv.ok
+  obtain ⟨h, _⟩ := docInv_run steps _ d _ (docInv_of_inv t st hinv em hem) hrun
+  rw [view_of_docInv d _ h, savedView_of_docInv d _ h]
+
+/-- **a shared edge is reported by both cells, through edits**: after any editing history two visible slots
+    on the same unit edge show the same stroke. -/
+theorem shared_edge_both_sides_edits (t : Table) (st : St) (hinv : Inv t st) (steps : List Step) (d : Doc)
+    (hrun : (Doc.mk t st false).run steps = .ok d) (r c r' c' : Nat) (sd sd' : Side)
+    (h1 : cfs d.t sd r c = true) (h2 : cfs d.t sd' r' c' = true) (he : edgeOf sd r c = edgeOf sd' r' c') :
+    d.view r c sd = d.view r' c' sd' := by
+  obtain ⟨em, hem⟩ := exists_tops st.sc hinv.ok
+  obtain ⟨h, _⟩ := docInv_run steps _ d _ (docInv_of_inv t st hinv em hem) hrun
+  rw [view_of_docInv d _ h, view_of_docInv d _ h, h1, h2, he]
+
+/-- editing histories keep the stroke-history invariant (once `extract_strokes` has run again), so strokes,
+    edits and save / reopen may be interleaved in any order and the stroke-only theorems above apply to the
+    state an editing history leaves behind. -/
+theorem edits_keep_inv (t : Table) (st : St) (hinv : Inv t st) (steps : List Step) (d : Doc)
+    (hrun : (Doc.mk t st false).run steps = .ok d) :
+    Inv d.t d.ensure.st ∧ SidecarOK d.st.sc := by
+  obtain ⟨em, hem⟩ := exists_tops st.sc hinv.ok
+  obtain ⟨h, _⟩ := docInv_run steps _ d _ (docInv_of_inv t st hinv em hem) hrun
+  exact ⟨inv_ensure d _ h, h.ok⟩
+
+/-- a history whose cell arguments lie in the table (as it is when the call is made) does not raise. -/
+theorem edits_total_in_range (d0 : Doc) (steps : List Step) (h : StepsInRange d0.t steps) :
+    ∃ d, d0.run steps = .ok d := run_ok steps d0 h
+
+/-! non-vacuity and the three recorded defects of the pinned commit -/
+
+def plain5 : Table := ⟨5, 5, fun _ _ => .plain⟩
+
+/-- (open view, reloaded view) of a slot after a history on a new 5×5 table -/
+def after (run : Doc → List Step → PyM Doc) (steps : List Step) (r c : Nat) (sd : Side) : Option (Option Nat × Option Nat) :=
+  match run (Doc.init plain5 2) steps with
+  | .ok d => some (d.view r c sd, d.savedView r c sd)
+  | .error _ => none
+
+/-- `border-lost-after-write`: top of B2 stroked, then a value written to B2 -/
+example : after Doc.runPinned [.stroke ⟨.top, 1, 1, 1, 7⟩, .write 1 1] 1 1 .top = some (none, some 7) := by decide
+example : after Doc.run [.stroke ⟨.top, 1, 1, 1, 7⟩, .write 1 1] 1 1 .top = some (some 7, some 7) := by decide
+/-- `border-lost-after-merge-cells`: top of A1 stroked, then C3:D4 merged -/
+example : after Doc.runPinned [.stroke ⟨.top, 0, 0, 1, 7⟩, .merge 2 2 1 1] 0 0 .top = some (none, some 7) := by decide
+example : after Doc.run [.stroke ⟨.top, 0, 0, 1, 7⟩, .merge 2 2 1 1] 0 0 .top = some (some 7, some 7) := by decide
+/-- `size-changes-on-reopen-after-add-next-to-stroke`: bottom of A5 stroked, two rows appended: the new A6
+    shares the edge -/
+example : after Doc.runPinned [.stroke ⟨.bottom, 4, 0, 1, 7⟩, .addRows 2] 5 0 .top = some (none, some 7) := by decide
+example : after Doc.run [.stroke ⟨.bottom, 4, 0, 1, 7⟩, .addRows 2] 5 0 .top = some (some 7, some 7) := by decide
+/-- a stroke that runs past the last row is picked up by the rows appended later (no neighbour carries it) -/
+example : after Doc.run [.stroke ⟨.left, 3, 2, 4, 9⟩, .addRows 1, .addCols 1] 5 2 .left = some (some 9, some 9) ∧
+    after Doc.run [.stroke ⟨.left, 3, 2, 4, 9⟩, .addRows 1, .addCols 1] 5 1 .right = some (some 9, some 9) := by decide
+
+/-- an interleaved history: strokes before and after a merge that swallows part of them, a write onto the
+    anchor, a refused stroke, appended rows and columns, a stroke on the new cells -/
+def histE : List Step :=
+  [.stroke ⟨.bottom, 1, 0, 5, 5⟩, .stroke ⟨.right, 0, 1, 4, 6⟩, .merge 1 1 1 1, .write 1 1, .stroke ⟨.right, 1, 1, 1, 8⟩,
+   .stroke ⟨.top, 1, 2, 2, 4⟩, .addRows 1, .addCols 2, .stroke ⟨.bottom, 5, 3, 3, 3⟩, .write 5 4, .merge 4 5 1 1]
+
+example : StepsInRange plain5 histE := by
+  simp [histE, StepsInRange, Step.InRange, stepTable, plain5]
+example : (histSpec plain5 (fun _ => none) histE).1.nrows = 6 ∧ (histSpec plain5 (fun _ => none) histE).1.ncols = 7 := by decide +kernel
+/-- the edge right of column B: rows 1, 2 are now inside B2:C3 (hidden), rows 0 and 3 still show stroke 6;
+    the refused stroke 8 is nowhere -/
+example : (List.range 4).map (fun r => after Doc.run histE r 1 .right) =
+    [some (some 6, some 6), some (none, none), some (none, none), some (some 6, some 6)] := by decide +kernel
+/-- the bottom of row 1 in columns 1, 2 is inside the merge; C2's top (placeholder, first row) shows stroke 4 -/
+example : (List.range 5).map (fun c => after Doc.run histE 1 c .bottom) =
+    [some (some 5, some 5), some (none, none), some (none, none), some (some 5, some 5), some (some 5, some 5)] ∧
+    after Doc.run histE 1 2 .top = some (some 4, some 4) ∧ after Doc.run histE 0 2 .bottom = some (some 4, some 4) := by decide +kernel
+/-- the stroke on the appended row is shown by the appended cells, also by the written one; (5, 5) has
+    become a placeholder of F5:G6 whose bottom row it is -/
+example : (List.range 7).map (fun c => after Doc.run histE 5 c .bottom) =
+    [some (none, none), some (none, none), some (none, none), some (some 3, some 3), some (some 3, some 3),
+     some (some 3, some 3), some (none, none)] := by decide +kernel
+example : (List.range 4).map (fun r => specEdits plain5 histE r 1 .right) = [some 6, none, none, some 6] := by decide +kernel
 
 /-! ### styles -/
 
